@@ -113,4 +113,21 @@ var c11Benign = []core.Mutant{
 	{Name: "current-child-through-closure", File: c11fCompute,
 		Find:    "\t\t\tc := child.FindVisible(\n\t\t\t\tparent.ChangesetID(),\n\t\t\t\ttimeThresholdParent(parent, 0),\n\t\t\t\topts.Threshold,\n\t\t\t)\n",
 		Replace: "\t\t\tcurrent := func(eps time.Duration) *shared.Child {\n\t\t\t\tat := timeThresholdParent(parent, 0)\n\t\t\t\treturn child.FindVisible(parent.ChangesetID(), at, eps)\n\t\t\t}\n\t\t\tc := current(opts.Threshold)\n"},
+
+	// ---- round 4: the bound of the window (nextVersionIndex) respelled
+	{Name: "bound-fallback-through-local", File: c11fCompute,
+		Find:    "\t// visble or not, we want to want to include it.\n\t// novisible versions of this child will be filtered out below.\n\treturn next.VersionIndex + 1\n}\n",
+		Replace: "\tk := next.VersionIndex\n\treturn k + 1\n}\n"},
+	{Name: "bound-at-next-branches-inverted", File: c11fCompute,
+		Find:    "\t\tif timeThreshold(next, 0).Before(timeThresholdParent(nextParent, -opts.Threshold)) {\n\t\t\treturn next.VersionIndex + 1\n\t\t}\n\n\t\treturn next.VersionIndex\n",
+		Replace: "\t\tlate := !timeThreshold(next, 0).Before(timeThresholdParent(nextParent, -opts.Threshold))\n\t\tif late {\n\t\t\treturn next.VersionIndex\n\t\t}\n\n\t\treturn 1 + next.VersionIndex\n"},
+	{Name: "bound-fallback-after-helper-closure", File: c11fCompute,
+		Find:    "\t// visble or not, we want to want to include it.\n\t// novisible versions of this child will be filtered out below.\n\treturn next.VersionIndex + 1\n}\n",
+		Replace: "\tafter := func(v *shared.Child) int { return v.VersionIndex + 1 }\n\treturn after(next)\n}\n"},
+	{Name: "bound-fallback-switch-form", File: c11fCompute,
+		Find:    "\tnext = child.VersionBefore(ts)\n\tif next == nil {\n\t\t// missing at current and next parent.\n\t\treturn 0 // no updates.\n\t}\n\n\t// visble or not, we want to want to include it.\n\t// novisible versions of this child will be filtered out below.\n\treturn next.VersionIndex + 1\n}\n",
+		Replace: "\tswitch last := child.VersionBefore(ts); {\n\tcase last == nil:\n\t\treturn 0\n\tdefault:\n\t\treturn last.VersionIndex + 1\n\t}\n}\n"},
+	{Name: "bound-no-next-parent-named-last", File: c11fCompute,
+		Find:    "\t\treturn child[len(child)-1].VersionIndex + 1\n",
+		Replace: "\t\tlast := child[len(child)-1]\n\t\treturn 1 + last.VersionIndex\n"},
 }
